@@ -19,6 +19,9 @@ def filterOf (id : Nat) : FExpr :=
   | 7 => .null
   | 8 => .tagNot ['T']                       -- a user-written filter that looks at the tag
   | 9 => .and (.thr 0) (.tagNot ['t'])
+  | 10 => .and (.thr 0) (.not (.thr 1))          -- a window, in both operand orders
+  | 11 => .and (.not (.thr 1)) (.thr 0)
+  | 12 => .or (.not (.thr 0)) (.thr 1)
   | _ => .null
 
 def parseItem (tok : String) : Option Item :=
